@@ -294,7 +294,12 @@ func (d *StreamingBlockDecoder) extractOutputOffsets(
 			// Calculate the absolute offset of the outputs array
 			// #nosec G115 -- Cardano tx body offsets are well under 4GiB
 			outputsArrayOffset := bodyOffset + uint32(headerSize) + uint32(valueStart)
-			outputsArrayHeader := uint32(cborArrayHeaderSize(len(outputsRaw)))
+			// Determine the header size from the data: the array length may be
+			// encoded non-minimally or as an indefinite-length array
+			var outputsArrayHeader uint32
+			if arrayStartIdx := int(headerSize) + valueStart; arrayStartIdx < len(bodyData) {
+				_, outputsArrayHeader, _ = cborArrayInfo(bodyData[arrayStartIdx:])
+			}
 
 			// Track position within outputs array
 			outputPos := outputsArrayOffset + outputsArrayHeader
